@@ -23,6 +23,8 @@ PAPERS = {
     "landscape": {"orientation": "landscape"},
     "a4": {"paper": (8.27, 11.69)},
     "a4land": {"orientation": "landscape", "paper": (11.69, 8.27)},
+    # landscape flag with the paper given short edge first (width < height), as for A4 written 8.27 x 11.69
+    "a4landp": {"orientation": "landscape", "paper": (8.27, 11.69)},
     "custom": {"paper": (7.3, 9.45), "margin": [0.9, 0.8, 1.1, 0.7, 0.6, 0.55], "col_width": 5.1},
     # letter paper with margins of its own (same size and orientation as "letter")
     "letterm": {"margin": [1.0, 1.3, 1.6, 1.1, 1.45, 0.95]},
